@@ -73,6 +73,17 @@ func deepCopySchemaDefinition(def *SchemaDefinition) *SchemaDefinition {
 	return ret
 }
 
+func deepCopyFeatureSet(fs FeatureSet) FeatureSet {
+	if fs == nil {
+		return nil
+	}
+	ret := make(FeatureSet, len(fs))
+	for k, v := range fs {
+		ret[k] = v
+	}
+	return ret
+}
+
 func fixTypePointer(t Type, namedTypes map[string]NamedType) Type {
 	switch t := t.(type) {
 	case NamedType:
@@ -97,6 +108,7 @@ func fixTypePointer(t Type, namedTypes map[string]NamedType) Type {
 func fixNamedTypePointers(node any, namedTypes map[string]NamedType) {
 	switch n := node.(type) {
 	case *UnionType:
+		n.RequiredFeatures = deepCopyFeatureSet(n.RequiredFeatures)
 		if n.Directives != nil {
 			newValues := make([]*Directive, len(n.Directives))
 			for i, v := range n.Directives {
@@ -118,6 +130,7 @@ func fixNamedTypePointers(node any, namedTypes map[string]NamedType) {
 			n.MemberTypes = newValues
 		}
 	case *InterfaceType:
+		n.RequiredFeatures = deepCopyFeatureSet(n.RequiredFeatures)
 		if n.Directives != nil {
 			newValues := make([]*Directive, len(n.Directives))
 			for i, v := range n.Directives {
@@ -137,6 +150,7 @@ func fixNamedTypePointers(node any, namedTypes map[string]NamedType) {
 			n.Fields = newValues
 		}
 	case *InputObjectType:
+		n.RequiredFeatures = deepCopyFeatureSet(n.RequiredFeatures)
 		if n.Directives != nil {
 			newValues := make([]*Directive, len(n.Directives))
 			for i, v := range n.Directives {
@@ -156,6 +170,7 @@ func fixNamedTypePointers(node any, namedTypes map[string]NamedType) {
 			n.Fields = newValues
 		}
 	case *ObjectType:
+		n.RequiredFeatures = deepCopyFeatureSet(n.RequiredFeatures)
 		if n.Directives != nil {
 			newValues := make([]*Directive, len(n.Directives))
 			for i, v := range n.Directives {
@@ -186,6 +201,7 @@ func fixNamedTypePointers(node any, namedTypes map[string]NamedType) {
 			n.ImplementedInterfaces = newValues
 		}
 	case *FieldDefinition:
+		n.RequiredFeatures = deepCopyFeatureSet(n.RequiredFeatures)
 		if n.Directives != nil {
 			newValues := make([]*Directive, len(n.Directives))
 			for i, v := range n.Directives {
@@ -222,7 +238,20 @@ func fixNamedTypePointers(node any, namedTypes map[string]NamedType) {
 			fixNamedTypePointers(&newDefinition, namedTypes)
 			n.Definition = &newDefinition
 		}
+		if n.Arguments != nil {
+			newValues := make([]*Argument, len(n.Arguments))
+			for i, v := range n.Arguments {
+				newValue := *v
+				newValues[i] = &newValue
+			}
+			n.Arguments = newValues
+		}
 	case *DirectiveDefinition:
+		if n.Locations != nil {
+			newValues := make([]DirectiveLocation, len(n.Locations))
+			copy(newValues, n.Locations)
+			n.Locations = newValues
+		}
 		if n.Arguments != nil {
 			newValues := make(map[string]*InputValueDefinition, len(n.Arguments))
 			for k, v := range n.Arguments {
@@ -233,6 +262,7 @@ func fixNamedTypePointers(node any, namedTypes map[string]NamedType) {
 			n.Arguments = newValues
 		}
 	case *EnumType:
+		n.RequiredFeatures = deepCopyFeatureSet(n.RequiredFeatures)
 		if n.Directives != nil {
 			newValues := make([]*Directive, len(n.Directives))
 			for i, v := range n.Directives {
@@ -246,11 +276,21 @@ func fixNamedTypePointers(node any, namedTypes map[string]NamedType) {
 			newValues := make(map[string]*EnumValueDefinition, len(n.Values))
 			for k, v := range n.Values {
 				newValue := *v
+				if newValue.Directives != nil {
+					newDirectives := make([]*Directive, len(newValue.Directives))
+					for i, d := range newValue.Directives {
+						newDirective := *d
+						fixNamedTypePointers(&newDirective, namedTypes)
+						newDirectives[i] = &newDirective
+					}
+					newValue.Directives = newDirectives
+				}
 				newValues[k] = &newValue
 			}
 			n.Values = newValues
 		}
 	case *ScalarType:
+		n.RequiredFeatures = deepCopyFeatureSet(n.RequiredFeatures)
 		if n.Directives != nil {
 			newValues := make([]*Directive, len(n.Directives))
 			for i, v := range n.Directives {
